@@ -253,6 +253,13 @@ def _(c):
     c.ensures_internal("a-rejoin-requested-during-the-sync-is-not-lost",
               "$armed is not None and self._coordinator._rejoin_needed_fut == $armed")
     c.ensures("a-failed-sync-leaves-a-rejoin-pending", "implies(result is None, self._coordinator._rejoin_needed_fut.done())")
+    # the same, said about this function's own calls (a clause the solver decides at once also on changed code): whatever the
+    # error of the SyncGroup reply - also one that only means "look the coordinator up again" - the member asks for a rejoin;
+    # otherwise a member that re-joined keeps its stale assignment and, its heartbeat task stopped, is never heard of again
+    c.ghost("$rejoin_asked", BOOL, "False")
+    c.hook("before", "self._coordinator.request_rejoin", [("set", "$rejoin_asked", "True")])
+    c.hook("before", "self._coordinator.reset_generation", [("set", "$rejoin_asked", "True")])
+    c.ensures_internal("every-failed-sync-asks-for-a-rejoin", "implies(result is None, $rejoin_asked)")
     c.ensures("a-successful-sync-keeps-the-identity-it-was-sent-with",
               "implies(result is not None, self._coordinator.generation == old(self._coordinator.generation)"
               " and self._coordinator.member_id == old(self._coordinator.member_id))")
